@@ -360,6 +360,28 @@ func c04PathsOpt(c *core.Ctx, fn *ssa.Function, inlineHelpers bool) ([]c04path, 
 		if !ok {
 			return 0
 		}
+		// an error value that an inlined helper returned: nil, a freshly made error, or one of the package's error variables
+		known := 0
+		switch rv := w.Resolve(subj).(type) {
+		case *ssa.Const:
+			if rv.IsNil() {
+				known = -1
+			}
+		case *ssa.Call:
+			if cal := rv.Call.StaticCallee(); cal != nil && cal.Pkg != nil && ((cal.Pkg.Pkg.Path() == "fmt" && cal.Name() == "Errorf") || (cal.Pkg.Pkg.Path() == "errors" && cal.Name() == "New")) {
+				known = 1
+			}
+		case *ssa.UnOp:
+			if g, isG := rv.X.(*ssa.Global); isG && rv.Op == token.MUL && strings.HasPrefix(g.Name(), "Err") && isErrorType(rv.Type()) {
+				known = 1
+			}
+		}
+		if known != 0 {
+			if (known == 1) == neq {
+				return 1
+			}
+			return -1
+		}
 		st := nilStateOf(w.Events(), subj, w)
 		if st == nUnknown {
 			return 0
@@ -391,6 +413,25 @@ func c04PathsOpt(c *core.Ctx, fn *ssa.Function, inlineHelpers bool) ([]c04path, 
 			last = e
 			switch e.Kind {
 			case paths.EvBranch:
+				// a test of an error an inlined helper returned is decided by what the helper returned: not a proposition of the path
+				if subj, _, isNil := nilTest(e.Cond); isNil && len(e.Fn.Params) >= 0 {
+					trivial := false
+					switch rv := e.Resolve(subj).(type) {
+					case *ssa.Const:
+						trivial = rv.IsNil() && !paths.IsNilConst(subj)
+					case *ssa.Call:
+						if cal := rv.Call.StaticCallee(); cal != nil && cal.Pkg != nil && rv != subj && ((cal.Pkg.Pkg.Path() == "fmt" && cal.Name() == "Errorf") || (cal.Pkg.Pkg.Path() == "errors" && cal.Name() == "New")) {
+							trivial = true
+						}
+					case *ssa.UnOp:
+						if g, isG := rv.X.(*ssa.Global); isG && rv != subj && rv.Op == token.MUL && strings.HasPrefix(g.Name(), "Err") && isErrorType(rv.Type()) {
+							trivial = true
+						}
+					}
+					if trivial {
+						continue
+					}
+				}
 				pr := proposition(e)
 				cp.props = append(cp.props, pr)
 				cp.sig = append(cp.sig, "if:"+pr)
@@ -492,7 +533,7 @@ func runC04(c *core.Ctx) {
 				continue
 			}
 			c.Count("functions", 1)
-			ps, err := c04Paths(c, fn)
+			ps, err := c04PathsOpt(c, fn, true) // unexported helper functions of the package are inlined
 			if err != nil {
 				c.Unknown("C04-EXACT", key, c.Prog.Pos(m.Pos()), err.Error())
 				continue
@@ -500,7 +541,18 @@ func runC04(c *core.Ctx) {
 			c.Count("paths", len(ps))
 			var all []string
 			for _, p := range ps {
-				all = append(all, strings.Join(p.sig, " ; "))
+				// per path: the set of events (the order of independent steps - a copy into the frame before or after the
+				// second read - is judged by the per-implementation rules, not by the sibling comparison)
+				var items []string
+				for _, it := range p.sig {
+					// a copy into the local frame on a path that ends in an error has no observable effect
+					if p.r1err && strings.HasPrefix(it, "call:copy(") {
+						continue
+					}
+					items = append(items, it)
+				}
+				sort.Strings(items)
+				all = append(all, strings.Join(items, " ; "))
 			}
 			sort.Strings(all)
 			if sigs[mname] == nil {
